@@ -335,9 +335,14 @@ func stInstanceNames(anc Sx) ([]string, bool) {
 				return nil, false
 			}
 		}
+		// Components with dashes: keys have the form <function>-<hash>-<size>-<instance>,
+		// so code that splits a key at a dash is only exercised by such names.
 		comp := strings.Repeat("a", 1+i%3) + fmt.Sprintf("%d", i/3)
+		if i%2 == 0 {
+			comp = strings.Repeat("a", 1+i%3) + "-" + fmt.Sprintf("%d", i/3)
+		}
 		if i <= 3 {
-			comp = []string{"", "a", "ab", "abc"}[i]
+			comp = []string{"", "a", "a-b", "abc"}[i]
 		}
 		if names[parent] == "" {
 			names[i] = comp
